@@ -94,42 +94,95 @@ theorem store_err? (name : String) (res : Data) (s : Step (Option Val)) : (store
   | report e r => cases r <;> rfl
   | abort e x => rfl
 
-def addRep (o : Opts) (k : String) : Option Err :=
-  if o.addition = some false then some { kind := .exceed, item := some k } else none
+/-- what `parse_addition` reports for one additional key -/
+def addRep (rec : P) (m : Mode) (o : Opts) (kv : String × Val) : Option Err :=
+  (additionStep rec m o ([], []) kv).err?
 
-theorem additionStep_err? (o : Opts) (acc : Data × Data) (kv : String × Val) :
-    (additionStep o acc kv).err? = addRep o kv.1 := by
-  unfold additionStep addRep
-  cases h : o.addition with
+theorem additionStep_err? (rec : P) (m : Mode) (o : Opts) (acc : Data × Data) (kv : String × Val) :
+    (additionStep rec m o acc kv).err? = addRep rec m o kv := by
+  unfold addRep additionStep
+  cases o.addition with
   | none => rfl
-  | some b => cases b <;> rfl
+  | no => rfl
+  | yes =>
+    simp only
+    cases o.addTy with
+    | none => rfl
+    | some T =>
+      simp only
+      cases verdict rec T m o kv.2 with
+      | some r => rfl
+      | none => cases o.invalidValues <;> rfl
+  | typed T0 =>
+    simp only
+    cases o.addTy with
+    | none => rfl
+    | some T =>
+      simp only
+      cases verdict rec T m o kv.2 with
+      | some r => rfl
+      | none => cases o.invalidValues <;> rfl
 
-theorem addRep_item {o : Opts} {k : String} {e : Err} (h : addRep o k = some e) : e.item = some k := by
-  unfold addRep at h
-  split at h
-  · simp only [Option.some.injEq] at h; rw [← h]
-  · simp at h
+theorem addRep_item {rec : P} {m : Mode} {o : Opts} {kv : String × Val} {e : Err}
+    (h : addRep rec m o kv = some e) : e.item = some kv.1 := by
+  unfold addRep additionStep at h
+  cases ha : o.addition with
+  | none => simp [ha, Step.err?] at h
+  | no => simp only [ha, Step.err?, Option.some.injEq] at h; rw [← h]
+  | yes =>
+    simp only [ha] at h
+    cases ht : o.addTy with
+    | none => simp [ht, Step.err?] at h
+    | some T =>
+      simp only [ht] at h
+      cases hv : verdict rec T m o kv.2 with
+      | some r => simp [hv, Step.err?] at h
+      | none =>
+        simp only [hv] at h
+        cases hp : o.invalidValues with
+        | exclude => simp [hp, Step.err?] at h
+        | preserve => simp [hp, Step.err?] at h
+        | throw => simp only [hp, Step.err?, Option.some.injEq] at h; rw [← h]
+  | typed T0 =>
+    simp only [ha] at h
+    cases ht : o.addTy with
+    | none => simp [ht, Step.err?] at h
+    | some T =>
+      simp only [ht] at h
+      cases hv : verdict rec T m o kv.2 with
+      | some r => simp [hv, Step.err?] at h
+      | none =>
+        simp only [hv] at h
+        cases hp : o.invalidValues with
+        | exclude => simp [hp, Step.err?] at h
+        | preserve => simp [hp, Step.err?] at h
+        | throw => simp only [hp, Step.err?, Option.some.injEq] at h; rw [← h]
 
-/-- what the first loop of `data_first_parse` reports for one input entry -/
-def g1 (rec : P) (m : Mode) (o : Opts) (decl : List FieldDecl) (kv : String × Val) : Option Err :=
+/-- what the loop over the inputs of `data_first_parse` reports for one input entry (`ex`: names already taken
+from positional arguments) -/
+def g1 (rec : P) (m : Mode) (o : Opts) (decl : List FieldDecl) (ex : List String) (kv : String × Val) : Option Err :=
   match decl.find? (fun f => f.name == kv.1) with
-  | none => addRep o kv.1
-  | some f => repField rec m o f kv.2
+  | none => addRep rec m o kv
+  | some f => if ex.contains f.name then none else repField rec m o f kv.2
 
-theorem dfStep1_err? (rec : P) (m : Mode) (o : Opts) (decl : List FieldDecl) (acc : Data × Data) (kv : String × Val) :
-    (dfStep1 rec m o decl acc kv).err? = g1 rec m o decl kv := by
+theorem dfStep1_err? (rec : P) (m : Mode) (o : Opts) (decl : List FieldDecl) (ex : List String)
+    (acc : Data × Data) (kv : String × Val) :
+    (dfStep1 rec m o decl ex acc kv).err? = g1 rec m o decl ex kv := by
   unfold dfStep1 g1
   cases hfind : decl.find? (fun f => f.name == kv.1) with
-  | none => exact additionStep_err? o acc kv
+  | none => exact additionStep_err? rec m o acc kv
   | some f =>
     simp only
-    have := store_err? f.name acc.1 (fieldValue rec m o f kv.2)
-    unfold repField
-    rw [← this]
-    cases store f.name acc.1 (fieldValue rec m o f kv.2) <;> rfl
+    by_cases hx : ex.contains f.name = true
+    · simp only [hx, if_true]; rfl
+    · simp only [hx, Bool.false_eq_true, if_false]
+      have := store_err? f.name acc.1 (fieldValue rec m o f kv.2)
+      unfold repField
+      rw [← this]
+      cases store f.name acc.1 (fieldValue rec m o f kv.2) <;> rfl
 
-theorem g1_item {rec : P} {m : Mode} {o : Opts} {decl : List FieldDecl} {kv : String × Val} {e : Err}
-    (h : g1 rec m o decl kv = some e) : e.item = some kv.1 := by
+theorem g1_item {rec : P} {m : Mode} {o : Opts} {decl : List FieldDecl} {ex : List String} {kv : String × Val}
+    {e : Err} (h : g1 rec m o decl ex kv = some e) : e.item = some kv.1 := by
   unfold g1 at h
   split at h
   · exact addRep_item h
@@ -137,83 +190,117 @@ theorem g1_item {rec : P} {m : Mode} {o : Opts} {decl : List FieldDecl} {kv : St
     have := List.find?_some hf
     simp only [beq_iff_eq] at this
     rw [← this]
-    exact repField_item h
+    split at h
+    · simp at h
+    · exact repField_item h
 
-theorem g1_declOf (rec : P) (m : Mode) (o : Opts) (decl : List FieldDecl) (k : String) (v : Val) :
-    g1 rec m o (declOf decl k) (k, v) = g1 rec m o decl (k, v) := by
+theorem g1_declOf (rec : P) (m : Mode) (o : Opts) (decl : List FieldDecl) (ex : List String) (k : String) (v : Val) :
+    g1 rec m o (declOf decl k) ex (k, v) = g1 rec m o decl ex (k, v) := by
   unfold g1 declOf
   simp only
   rw [find?_filter_self (fun f => f.name == k) decl]
 
 /-- what the field loop of `field_first_parse` reports for one field -/
-def h1 (rec : P) (m : Mode) (o : Opts) (data : Data) (f : FieldDecl) : Option Err :=
-  match data.lookup f.name with
-  | none => if f.required then some { kind := .absence, item := some f.name } else none
-  | some v => repField rec m o f v
+def h1 (rec : P) (m : Mode) (o : Opts) (data : Data) (ex : List String) (f : FieldDecl) : Option Err :=
+  if ex.contains f.name then none
+  else
+    match data.lookup f.name with
+    | none => if f.required then some { kind := .absence, item := some f.name } else none
+    | some v => repField rec m o f v
 
-theorem ffStep1_err? (rec : P) (m : Mode) (o : Opts) (data : Data) (acc : Data) (f : FieldDecl) :
-    (ffStep1 rec m o data acc f).err? = h1 rec m o data f := by
+theorem ffStep1_err? (rec : P) (m : Mode) (o : Opts) (data : Data) (ex : List String) (acc : Data) (f : FieldDecl) :
+    (ffStep1 rec m o data ex acc f).err? = h1 rec m o data ex f := by
   unfold ffStep1 h1
-  cases hl : data.lookup f.name with
-  | none =>
-    simp only
-    by_cases hr : f.required = true
-    · simp only [hr, if_true]; rfl
-    · simp only [hr, Bool.false_eq_true, if_false]
-      cases f.default <;> rfl
-  | some v => exact store_err? _ _ _
+  by_cases hx : ex.contains f.name = true
+  · simp only [hx, if_true]; rfl
+  · simp only [hx, Bool.false_eq_true, if_false]
+    cases hl : data.lookup f.name with
+    | none =>
+      simp only
+      by_cases hr : f.required = true
+      · simp only [hr, if_true]; rfl
+      · simp only [hr, Bool.false_eq_true, if_false]
+        cases f.default <;> rfl
+    | some v => exact store_err? _ _ _
 
-theorem h1_item {rec : P} {m : Mode} {o : Opts} {data : Data} {f : FieldDecl} {e : Err}
-    (h : h1 rec m o data f = some e) : e.item = some f.name := by
+theorem h1_item {rec : P} {m : Mode} {o : Opts} {data : Data} {ex : List String} {f : FieldDecl} {e : Err}
+    (h : h1 rec m o data ex f = some e) : e.item = some f.name := by
   unfold h1 at h
   split at h
+  · simp at h
   · split at h
-    · simp only [Option.some.injEq] at h; rw [← h]
-    · simp at h
-  · exact repField_item h
+    · split at h
+      · simp only [Option.some.injEq] at h; rw [← h]
+      · simp at h
+    · exact repField_item h
 
 /-- what the addition loop of `field_first_parse` reports for one input entry -/
-def h2 (o : Opts) (decl : List FieldDecl) (kv : String × Val) : Option Err :=
-  if decl.any (fun f => f.name == kv.1) then none else addRep o kv.1
+def h2 (rec : P) (m : Mode) (o : Opts) (decl : List FieldDecl) (ex : List String) (kv : String × Val) : Option Err :=
+  if decl.any (fun f => f.name == kv.1 && !ex.contains f.name) then none else addRep rec m o kv
 
-theorem ffStep2_err? (o : Opts) (decl : List FieldDecl) (acc : Data × Data) (kv : String × Val) :
-    (ffStep2 o decl acc kv).err? = h2 o decl kv := by
+theorem ffStep2_err? (rec : P) (m : Mode) (o : Opts) (decl : List FieldDecl) (ex : List String)
+    (acc : Data × Data) (kv : String × Val) :
+    (ffStep2 rec m o decl ex acc kv).err? = h2 rec m o decl ex kv := by
   unfold ffStep2 h2
   split
   · rfl
-  · exact additionStep_err? o acc kv
+  · exact additionStep_err? rec m o acc kv
 
-theorem h2_item {o : Opts} {decl : List FieldDecl} {kv : String × Val} {e : Err}
-    (h : h2 o decl kv = some e) : e.item = some kv.1 := by
+theorem h2_item {rec : P} {m : Mode} {o : Opts} {decl : List FieldDecl} {ex : List String} {kv : String × Val}
+    {e : Err} (h : h2 rec m o decl ex kv = some e) : e.item = some kv.1 := by
   unfold h2 at h
   split at h
   · simp at h
   · exact addRep_item h
 
-theorem reportsFF_eq (rec : P) (m : Mode) (o : Opts) (decl : List FieldDecl) (data : Data) :
-    reportsFF rec m o decl data = decl.filterMap (h1 rec m o data) ++ data.filterMap (h2 o decl) := by
+theorem any_filter_and (p q : α → Bool) (l : List α) :
+    (l.filter p).any (fun a => p a && q a) = l.any (fun a => p a && q a) := by
+  induction l with
+  | nil => rfl
+  | cons a l ih =>
+    by_cases h : p a = true
+    · simp [List.filter, h, ih]
+    · simp only [Bool.not_eq_true] at h
+      simp [List.filter, h, ih]
+
+theorem h2_declOf (rec : P) (m : Mode) (o : Opts) (decl : List FieldDecl) (ex : List String) (k : String) (v : Val) :
+    h2 rec m o (declOf decl k) ex (k, v) = h2 rec m o decl ex (k, v) := by
+  unfold h2 declOf
+  simp only
+  rw [any_filter_and (fun f => f.name == k) (fun f => !ex.contains f.name) decl]
+
+theorem addRep_none_of_not_given {rec : P} {m : Mode} {o : Opts} (h : o.addition.given = false) (kv : String × Val) :
+    addRep rec m o kv = none := by
+  unfold addRep additionStep
+  cases ha : o.addition with
+  | none => rfl
+  | no => rw [ha] at h; simp [Addition.given] at h
+  | yes => rw [ha] at h; simp [Addition.given] at h
+  | typed T => rw [ha] at h; simp [Addition.given] at h
+
+theorem reportsFF_eq (rec : P) (m : Mode) (o : Opts) (decl : List FieldDecl) (ex : List String) (data : Data) :
+    reportsFF rec m o decl ex data = decl.filterMap (h1 rec m o data ex) ++ data.filterMap (h2 rec m o decl ex) := by
   unfold reportsFF
-  rw [trace_filterMap (h1 rec m o data) (ffStep1_noAbort rec m o data) (ffStep1_err? rec m o data)]
-  by_cases ha : o.addition.isSome = true
+  rw [trace_filterMap (h1 rec m o data ex) (ffStep1_noAbort rec m o data ex) (ffStep1_err? rec m o data ex)]
+  by_cases ha : o.addition.given = true
   · simp only [ha, if_true]
-    rw [trace_filterMap (h2 o decl) (ffStep2_noAbort o decl) (ffStep2_err? o decl)]
+    rw [trace_filterMap (h2 rec m o decl ex) (ffStep2_noAbort rec m o decl ex) (ffStep2_err? rec m o decl ex)]
   · simp only [ha, Bool.false_eq_true, if_false]
-    have : data.filterMap (h2 o decl) = [] := by
+    have : data.filterMap (h2 rec m o decl ex) = [] := by
       rw [List.filterMap_eq_nil_iff]
       intro kv _
-      unfold h2 addRep
-      have : o.addition = none := by
-        cases hh : o.addition with
-        | none => rfl
-        | some b => rw [hh] at ha; simp at ha
-      simp [this]
+      unfold h2
+      split
+      · rfl
+      · exact addRep_none_of_not_given (by simpa using ha) kv
     rw [this]
 
 /-! ### field-first: reports and items -/
 
-theorem ff_sound (rec : P) (m : Mode) (o : Opts) (decl : List FieldDecl) (data : Data) (e : Err)
-    (he : e ∈ reportsFF rec m o decl data) :
-    ∃ i, e.item = some i ∧ isItem decl data i = true ∧ reportsFF rec m o (declOf decl i) (dataOf data i) ≠ [] := by
+theorem ff_sound (rec : P) (m : Mode) (o : Opts) (decl : List FieldDecl) (ex : List String) (data : Data) (e : Err)
+    (he : e ∈ reportsFF rec m o decl ex data) :
+    ∃ i, e.item = some i ∧ isItem decl data i = true ∧
+      reportsFF rec m o (declOf decl i) ex (dataOf data i) ≠ [] := by
   rw [reportsFF_eq] at he
   rcases List.mem_append.mp he with he | he
   · obtain ⟨f, hf, hfe⟩ := List.mem_filterMap.mp he
@@ -222,7 +309,7 @@ theorem ff_sound (rec : P) (m : Mode) (o : Opts) (decl : List FieldDecl) (data :
       left; exact ⟨f, hf, rfl⟩
     · rw [reportsFF_eq]
       intro hnil
-      have hmem : e ∈ (declOf decl f.name).filterMap (h1 rec m o (dataOf data f.name)) := by
+      have hmem : e ∈ (declOf decl f.name).filterMap (h1 rec m o (dataOf data f.name) ex) := by
         apply List.mem_filterMap.mpr
         refine ⟨f, ?_, ?_⟩
         · simp [declOf, hf]
@@ -239,22 +326,18 @@ theorem ff_sound (rec : P) (m : Mode) (o : Opts) (decl : List FieldDecl) (data :
       right; exact (hasKey_mem k data).mpr ⟨v, hkv⟩
     · rw [reportsFF_eq]
       intro hnil
-      have hmem : e ∈ (dataOf data k).filterMap (h2 o (declOf decl k)) := by
+      have hmem : e ∈ (dataOf data k).filterMap (h2 rec m o (declOf decl k) ex) := by
         apply List.mem_filterMap.mpr
         refine ⟨(k, v), ?_, ?_⟩
         · simp [dataOf, hkv]
-        · unfold h2 at hke ⊢
-          simp only at hke ⊢
-          unfold declOf
-          rw [any_filter_self (fun f => f.name == k) decl]
-          exact hke
+        · rw [h2_declOf]; exact hke
       rw [List.append_eq_nil_iff] at hnil
       rw [hnil.2] at hmem
       cases hmem
 
-theorem ff_complete (rec : P) (m : Mode) (o : Opts) (decl : List FieldDecl) (data : Data) (i : String)
-    (hne : reportsFF rec m o (declOf decl i) (dataOf data i) ≠ []) :
-    ∃ e ∈ reportsFF rec m o decl data, e.item = some i := by
+theorem ff_complete (rec : P) (m : Mode) (o : Opts) (decl : List FieldDecl) (ex : List String) (data : Data)
+    (i : String) (hne : reportsFF rec m o (declOf decl i) ex (dataOf data i) ≠ []) :
+    ∃ e ∈ reportsFF rec m o decl ex data, e.item = some i := by
   rw [reportsFF_eq] at hne
   rw [reportsFF_eq]
   obtain ⟨e', he'⟩ := List.exists_mem_of_ne_nil _ hne
@@ -274,22 +357,20 @@ theorem ff_complete (rec : P) (m : Mode) (o : Opts) (decl : List FieldDecl) (dat
     obtain ⟨hkd, hki⟩ := hkv
     subst hki
     refine ⟨e', List.mem_append.mpr (Or.inr (List.mem_filterMap.mpr ⟨(k, v), hkd, ?_⟩)), h2_item hke⟩
-    unfold h2 at hke ⊢
-    simp only at hke ⊢
-    unfold declOf at hke
-    rw [any_filter_self (fun f => f.name == k) decl] at hke
+    rw [h2_declOf] at hke
     exact hke
 
 /-! ### data-first (after C06's repair the second loop only asks whether the field was given) -/
 
 /-- what the loop over the declared fields of `data_first_parse` reports for one field -/
-def g2 (data : Data) (f : FieldDecl) : Option Err :=
-  if hasKey f.name data then none
+def g2 (data : Data) (ex : List String) (f : FieldDecl) : Option Err :=
+  if hasKey f.name data || ex.contains f.name then none
   else if f.required then some { kind := .absence, item := some f.name } else none
 
-theorem dfStep2_err? (data : Data) (acc : Data) (f : FieldDecl) : (dfStep2 data acc f).err? = g2 data f := by
+theorem dfStep2_err? (data : Data) (ex : List String) (acc : Data) (f : FieldDecl) :
+    (dfStep2 data ex acc f).err? = g2 data ex f := by
   unfold dfStep2 g2
-  by_cases hk : hasKey f.name data = true
+  by_cases hk : (hasKey f.name data || ex.contains f.name) = true
   · simp only [hk, if_true]; rfl
   · simp only [hk, Bool.false_eq_true, if_false]
     by_cases hr : f.required = true
@@ -297,7 +378,8 @@ theorem dfStep2_err? (data : Data) (acc : Data) (f : FieldDecl) : (dfStep2 data 
     · simp only [hr, Bool.false_eq_true, if_false]
       cases f.default <;> rfl
 
-theorem g2_item {data : Data} {f : FieldDecl} {e : Err} (h : g2 data f = some e) : e.item = some f.name := by
+theorem g2_item {data : Data} {ex : List String} {f : FieldDecl} {e : Err} (h : g2 data ex f = some e) :
+    e.item = some f.name := by
   unfold g2 at h
   split at h
   · simp at h
@@ -309,11 +391,11 @@ theorem hasKey_dataOf (data : Data) (i : String) : hasKey i (dataOf data i) = ha
   unfold hasKey dataOf
   exact any_filter_self (fun p => p.1 == i) data
 
-theorem reportsDF_eq (rec : P) (m : Mode) (o : Opts) (decl : List FieldDecl) (data : Data) :
-    reportsDF rec m o decl data = data.filterMap (g1 rec m o decl) ++ decl.filterMap (g2 data) := by
+theorem reportsDF_eq (rec : P) (m : Mode) (o : Opts) (decl : List FieldDecl) (ex : List String) (data : Data) :
+    reportsDF rec m o decl ex data = data.filterMap (g1 rec m o decl ex) ++ decl.filterMap (g2 data ex) := by
   unfold reportsDF
-  rw [trace_filterMap (g1 rec m o decl) (dfStep1_noAbort rec m o decl) (dfStep1_err? rec m o decl),
-    trace_filterMap (g2 data) (dfStep2_noAbort data) (dfStep2_err? data)]
+  rw [trace_filterMap (g1 rec m o decl ex) (dfStep1_noAbort rec m o decl ex) (dfStep1_err? rec m o decl ex),
+    trace_filterMap (g2 data ex) (dfStep2_noAbort data ex) (dfStep2_err? data ex)]
 
 theorem mem_dataOf {data : Data} {i k : String} {v : Val} : (k, v) ∈ dataOf data i ↔ (k, v) ∈ data ∧ k = i := by
   simp [dataOf]
@@ -321,9 +403,10 @@ theorem mem_dataOf {data : Data} {i k : String} {v : Val} : (k, v) ∈ dataOf da
 theorem mem_declOf {decl : List FieldDecl} {i : String} {f : FieldDecl} : f ∈ declOf decl i ↔ f ∈ decl ∧ f.name = i := by
   simp [declOf]
 
-theorem df_sound (rec : P) (m : Mode) (o : Opts) (decl : List FieldDecl)
-    (data : Data) (e : Err) (he : e ∈ reportsDF rec m o decl data) :
-    ∃ i, e.item = some i ∧ isItem decl data i = true ∧ reportsDF rec m o (declOf decl i) (dataOf data i) ≠ [] := by
+theorem df_sound (rec : P) (m : Mode) (o : Opts) (decl : List FieldDecl) (ex : List String)
+    (data : Data) (e : Err) (he : e ∈ reportsDF rec m o decl ex data) :
+    ∃ i, e.item = some i ∧ isItem decl data i = true ∧
+      reportsDF rec m o (declOf decl i) ex (dataOf data i) ≠ [] := by
   rw [reportsDF_eq] at he
   rcases List.mem_append.mp he with he | he
   · obtain ⟨kv, hkv, hke⟩ := List.mem_filterMap.mp he
@@ -333,7 +416,7 @@ theorem df_sound (rec : P) (m : Mode) (o : Opts) (decl : List FieldDecl)
       right; exact (hasKey_mem k data).mpr ⟨v, hkv⟩
     · rw [reportsDF_eq]
       intro hnil
-      have hmem : e ∈ (dataOf data k).filterMap (g1 rec m o (declOf decl k)) := by
+      have hmem : e ∈ (dataOf data k).filterMap (g1 rec m o (declOf decl k) ex) := by
         apply List.mem_filterMap.mpr
         exact ⟨(k, v), mem_dataOf.mpr ⟨hkv, rfl⟩, by rw [g1_declOf]; exact hke⟩
       rw [List.append_eq_nil_iff] at hnil
@@ -345,7 +428,7 @@ theorem df_sound (rec : P) (m : Mode) (o : Opts) (decl : List FieldDecl)
       left; exact ⟨f, hf, rfl⟩
     · rw [reportsDF_eq]
       intro hnil
-      have hmem : e ∈ (declOf decl f.name).filterMap (g2 (dataOf data f.name)) := by
+      have hmem : e ∈ (declOf decl f.name).filterMap (g2 (dataOf data f.name) ex) := by
         apply List.mem_filterMap.mpr
         refine ⟨f, mem_declOf.mpr ⟨hf, rfl⟩, ?_⟩
         unfold g2 at hfe ⊢
@@ -355,9 +438,9 @@ theorem df_sound (rec : P) (m : Mode) (o : Opts) (decl : List FieldDecl)
       rw [hnil.2] at hmem
       cases hmem
 
-theorem df_complete (rec : P) (m : Mode) (o : Opts) (decl : List FieldDecl)
-    (data : Data) (i : String) (hne : reportsDF rec m o (declOf decl i) (dataOf data i) ≠ []) :
-    ∃ e ∈ reportsDF rec m o decl data, e.item = some i := by
+theorem df_complete (rec : P) (m : Mode) (o : Opts) (decl : List FieldDecl) (ex : List String)
+    (data : Data) (i : String) (hne : reportsDF rec m o (declOf decl i) ex (dataOf data i) ≠ []) :
+    ∃ e ∈ reportsDF rec m o decl ex data, e.item = some i := by
   rw [reportsDF_eq] at hne
   rw [reportsDF_eq]
   obtain ⟨e', he'⟩ := List.exists_mem_of_ne_nil _ hne
@@ -377,20 +460,31 @@ theorem df_complete (rec : P) (m : Mode) (o : Opts) (decl : List FieldDecl)
 
 /-! ### both strategies -/
 
+theorem reportsX_sound (rec : P) (m : Mode) (o : Opts) (decl : List FieldDecl) (ex : List String)
+    (data : Data) (e : Err) (he : e ∈ reportsX rec m o decl ex data) :
+    ∃ i, e.item = some i ∧ isItem decl data i = true ∧
+      reportsX rec m o (declOf decl i) ex (dataOf data i) ≠ [] := by
+  unfold reportsX at he ⊢
+  by_cases hd : o.dfs = true
+  · simp only [hd, if_true] at he ⊢; exact df_sound rec m o decl ex data e he
+  · simp only [hd, Bool.false_eq_true, if_false] at he ⊢; exact ff_sound rec m o decl ex data e he
+
+theorem reportsX_complete (rec : P) (m : Mode) (o : Opts) (decl : List FieldDecl) (ex : List String)
+    (data : Data) (i : String) (hne : reportsX rec m o (declOf decl i) ex (dataOf data i) ≠ []) :
+    ∃ e ∈ reportsX rec m o decl ex data, e.item = some i := by
+  unfold reportsX at hne ⊢
+  by_cases hd : o.dfs = true
+  · simp only [hd, if_true] at hne ⊢; exact df_complete rec m o decl ex data i hne
+  · simp only [hd, Bool.false_eq_true, if_false] at hne ⊢; exact ff_complete rec m o decl ex data i hne
+
 theorem reports_sound (rec : P) (m : Mode) (o : Opts) (decl : List FieldDecl)
     (data : Data) (e : Err) (he : e ∈ reports rec m o decl data) :
-    ∃ i, e.item = some i ∧ isItem decl data i = true ∧ reports rec m o (declOf decl i) (dataOf data i) ≠ [] := by
-  unfold reports at he ⊢
-  by_cases hd : o.dfs = true
-  · simp only [hd, if_true] at he ⊢; exact df_sound rec m o decl data e he
-  · simp only [hd, Bool.false_eq_true, if_false] at he ⊢; exact ff_sound rec m o decl data e he
+    ∃ i, e.item = some i ∧ isItem decl data i = true ∧ reports rec m o (declOf decl i) (dataOf data i) ≠ [] :=
+  reportsX_sound rec m o decl [] data e he
 
 theorem reports_complete (rec : P) (m : Mode) (o : Opts) (decl : List FieldDecl)
     (data : Data) (i : String) (hne : reports rec m o (declOf decl i) (dataOf data i) ≠ []) :
-    ∃ e ∈ reports rec m o decl data, e.item = some i := by
-  unfold reports at hne ⊢
-  by_cases hd : o.dfs = true
-  · simp only [hd, if_true] at hne ⊢; exact df_complete rec m o decl data i hne
-  · simp only [hd, Bool.false_eq_true, if_false] at hne ⊢; exact ff_complete rec m o decl data i hne
+    ∃ e ∈ reports rec m o decl data, e.item = some i :=
+  reportsX_complete rec m o decl [] data i hne
 
 end Utv.C10
